@@ -2,6 +2,7 @@ package main
 
 import (
 	"fmt"
+	"go/types"
 	"sort"
 	"strings"
 
@@ -12,6 +13,21 @@ import (
 func emittedNames(v ssa.Value) []string {
 	set := map[string]bool{}
 	seen := map[ssa.Value]bool{}
+	// walkName: a plain string that is used as the callee name
+	walkName := func(v ssa.Value) {
+		switch x := v.(type) {
+		case *ssa.Extract:
+			if lk, ok := x.Tuple.(*ssa.Lookup); ok && x.Index == 0 {
+				if g := globalOfLoad(lk.X); g != nil {
+					set["\x00lookup:"+g.Name()+"\x00"+sk(lk.Index)] = true
+				}
+			}
+		case *ssa.Lookup:
+			if g := globalOfLoad(x.X); g != nil && !x.CommaOk {
+				set["\x00lookup:"+g.Name()+"\x00"+sk(x.Index)] = true
+			}
+		}
+	}
 	var walk func(v ssa.Value)
 	walk = func(v ssa.Value) {
 		if v == nil || seen[v] {
@@ -31,6 +47,8 @@ func emittedNames(v ssa.Value) []string {
 			if strings.HasSuffix(n, ".newCoqCall") {
 				if s, ok := constString(c.Call.Args[1]); ok {
 					set[s] = true
+				} else {
+					walkName(c.Call.Args[1])
 				}
 				return
 			}
@@ -45,6 +63,17 @@ func emittedNames(v ssa.Value) []string {
 			return
 		}
 		switch x := v.(type) {
+		case *ssa.Extract:
+			// value looked up in a constant package-level table: expanded per entry by caseTable
+			if lk, ok := x.Tuple.(*ssa.Lookup); ok && x.Index == 0 {
+				if g := globalOfLoad(lk.X); g != nil {
+					set["\x00lookup:"+g.Name()+"\x00"+sk(lk.Index)] = true
+				}
+			}
+		case *ssa.Lookup:
+			if g := globalOfLoad(x.X); g != nil && !x.CommaOk {
+				set["\x00lookup:"+g.Name()+"\x00"+sk(x.Index)] = true
+			}
 		case *ssa.MakeInterface:
 			walk(x.X)
 		case *ssa.ChangeType:
@@ -125,9 +154,103 @@ func caseTable(p *Prog, f *ssa.Function) ([]caseRow, bool) {
 			continue
 		}
 		v := resolveOnPath(pt, ret.Results[0])
-		rows = append(rows, caseRow{cases, emittedNames(v), ret, pt})
+		em := emittedNames(v)
+		// a name taken from a constant package-level map: one row per entry of the map
+		expanded := false
+		for _, e := range em {
+			if !strings.HasPrefix(e, "\x00lookup:") {
+				continue
+			}
+			parts := strings.SplitN(strings.TrimPrefix(e, "\x00lookup:"), "\x00", 2)
+			var g *ssa.Global
+			if f.Pkg != nil {
+				g, _ = f.Pkg.Members[parts[0]].(*ssa.Global)
+			}
+			if g == nil {
+				continue
+			}
+			tab, ok := p.stringMapRows(g)
+			if !ok {
+				continue
+			}
+			expanded = true
+			for _, k := range sortedKeys(tab) {
+				cs := append(append([]string{}, cases...), k+" @ "+parts[1])
+				sort.Strings(cs)
+				var others []string
+				for _, o := range em {
+					if o != e {
+						others = append(others, o)
+					}
+				}
+				rows = append(rows, caseRow{cs, append(others, tab[k]), ret, pt})
+			}
+		}
+		if !expanded {
+			rows = append(rows, caseRow{cases, em, ret, pt})
+		}
 	}
 	return rows, true
+}
+
+func globalOfLoad(v ssa.Value) *ssa.Global {
+	if ld, ok := v.(*ssa.UnOp); ok {
+		if g, ok := ld.X.(*ssa.Global); ok {
+			return g
+		}
+	}
+	return nil
+}
+
+// stringMapRows: the entries of a package-level map[string]string initialised with a literal and never updated.
+func (p *Prog) stringMapRows(g *ssa.Global) (map[string]string, bool) {
+	ini := g.Pkg.Func("init")
+	if ini == nil {
+		return nil, false
+	}
+	rows := map[string]string{}
+	ok, n := true, 0
+	p.instrs(ini, func(b *ssa.BasicBlock, i int, in ssa.Instruction) {
+		st, isSt := in.(*ssa.Store)
+		if !isSt || st.Addr != ssa.Value(g) {
+			return
+		}
+		n++
+		mk, isMk := st.Val.(*ssa.MakeMap)
+		if !isMk {
+			ok = false
+			return
+		}
+		for _, rf := range refs(mk) {
+			if mu, isMu := rf.(*ssa.MapUpdate); isMu {
+				k, ok1 := constString(mu.Key)
+				v, ok2 := constString(mu.Value)
+				if !ok1 || !ok2 {
+					ok = false
+					continue
+				}
+				rows[k] = v
+			}
+		}
+	})
+	for _, fn := range p.srcFuncs {
+		if fn == ini {
+			continue
+		}
+		p.instrs(fn, func(b *ssa.BasicBlock, i int, in ssa.Instruction) {
+			switch x := in.(type) {
+			case *ssa.Store:
+				if x.Addr == ssa.Value(g) {
+					ok = false
+				}
+			case *ssa.MapUpdate:
+				if globalOfLoad(x.Map) == g {
+					ok = false
+				}
+			}
+		})
+	}
+	return rows, ok && n == 1 && len(rows) > 0
 }
 
 // checkMapping compares the rows of f against want (case constant -> emitted name).
@@ -390,60 +513,84 @@ func c03Recognisers(p *Prog, r *Report) {
 }
 
 func c03Spawn(p *Prog, r *Report) {
-	gs := p.Func(Mod, "Ctx.goStmt")
-	sp := p.Func(Mod, "Ctx.spawnExpr")
-	if gs == nil || sp == nil {
-		r.Anchor("R03c", "goose.Ctx.goStmt / spawnExpr")
+	// the translation of go statements, by role: the method of Ctx that takes a *ast.GoStmt
+	var gs *ssa.Function
+	for _, g := range p.FuncsIn(Mod) {
+		if g.Parent() == nil && g.Signature.Recv() != nil && g.Signature.Params().Len() == 1 &&
+			types.TypeString(g.Signature.Params().At(0).Type(), nil) == "*go/ast.GoStmt" {
+			gs = g
+		}
+	}
+	if gs == nil {
+		r.Anchor("R03c", "the translation of go statements (a method taking *ast.GoStmt)")
 		return
 	}
 	r.Func(FuncName(gs))
-	r.Func(FuncName(sp))
-	rm := p.Rels(gs)
-	n := 0
-	p.instrs(gs, func(b *ssa.BasicBlock, i int, in ssa.Instruction) {
-		c, ok := in.(*ssa.Call)
-		if !ok || calleeOf(&c.Call) != sp {
-			return
+	// every normally returning abstract path (helpers spliced in) carries both shape facts
+	ips, ok := p.ipaths(gs)
+	nRet, badArgs, badLit := 0, "", ""
+	for _, ip := range ips {
+		if ip.Exit != "return" {
+			continue
 		}
-		n++
-		rs := p.RelsAt(rm, c)
-		okArgs := false
-		for k := range rs {
-			if strings.HasPrefix(k, "len(") && strings.Contains(k, ".Call.Args)") && (strings.HasSuffix(k, " <= 0") || strings.HasSuffix(k, " == 0")) || k == "0 == len(e.Call.Args)" {
-				okArgs = true
+		nRet++
+		noArgs, isLit := false, false
+		for k := range ip.Rels {
+			if strings.Contains(k, ".Call.Args)") && (strings.HasPrefix(k, "len(") && (strings.HasSuffix(k, " <= 0") || strings.HasSuffix(k, " == 0")) || strings.HasPrefix(k, "0 == len(")) {
+				noArgs = true
+			}
+			if strings.Contains(k, ".Call.Fun.(*FuncLit)#1 == true") {
+				isLit = true
 			}
 		}
-		r.Check("R03c", "go statements with arguments are rejected", instrPos(in), okArgs,
-			fmt.Sprintf("the spawn is translated without the fact that the call has no arguments (facts %v): arguments of `go f(x)` are evaluated by the parent before the fork; translating them inside the forked thread reads the parent's variables after later writes", relList(rs)))
-		okFun := strings.HasSuffix(sk(c.Call.Args[1]), ".Call.Fun")
-		r.Check("R03c", "the spawned function is the call's function expression", instrPos(in), okFun, "argument is "+sk(c.Call.Args[1]))
-	})
-	if n == 0 {
-		r.Fail("R03c", "go statements with arguments are rejected", gs.Pos(), "goStmt does not call spawnExpr", "")
+		if !noArgs {
+			badArgs = "a go statement is translated on a path without the fact that its call has no arguments: " + ip.Trace
+		}
+		if !isLit {
+			badLit = "a go statement is translated on a path without the fact that the spawned function is a literal: " + ip.Trace
+		}
 	}
-	// spawnExpr: literal only, body with ExprValLocal, params untouched
-	rmS := p.Rels(sp)
-	okLit, okLocal := false, false
+	r.Check("R03c", "go statements with arguments are rejected", gs.Pos(), ok && nRet > 0 && badArgs == "",
+		badArgs+" — arguments of `go f(x)` are evaluated by the parent before the fork; translating them inside the forked thread reads the parent's variables after later writes")
+	r.Check("R03c", "only function literals are spawned", gs.Pos(), ok && nRet > 0 && badLit == "", badLit)
+	// the body is translated with no control effect available and nothing of the literal's parameter list is used
+	okLocal, nBody := true, 0
 	touchesParams := false
-	p.instrs(sp, func(b *ssa.BasicBlock, i int, in ssa.Instruction) {
-		if c, ok := in.(*ssa.Call); ok && strings.HasSuffix(calleeName(c), ".blockStmt") {
-			rs := p.RelsAt(rmS, c)
-			if hasFactContaining(rs, ".(*FuncLit)#1 == true") {
-				okLit = true
+	for _, g := range p.region([]*ssa.Function{gs}) {
+		// only the go-statement translation itself and helpers that receive the spawned function expression
+		if g != gs {
+			isHelper := false
+			p.instrs(gs, func(b *ssa.BasicBlock, i int, in ssa.Instruction) {
+				if c, ok := in.(*ssa.Call); ok && calleeOf(&c.Call) == g {
+					for _, a := range c.Call.Args {
+						if strings.HasSuffix(sk(a), ".Call.Fun") {
+							isHelper = true
+						}
+					}
+				}
+			})
+			if !isHelper {
+				continue
 			}
-			if k, ok := constInt(c.Call.Args[2]); ok && k == 0 {
-				okLocal = true
-			}
+			r.Func(FuncName(g))
 		}
-		if v, ok := in.(ssa.Value); ok {
-			if _, fld, okf := fieldOf(v); okf && (fld == "Params" || fld == "Type") {
-				touchesParams = true
+		p.instrs(g, func(b *ssa.BasicBlock, i int, in ssa.Instruction) {
+			if c, ok := in.(*ssa.Call); ok && strings.HasSuffix(calleeName(c), ".blockStmt") {
+				nBody++
+				if k, ok := constInt(c.Call.Args[len(c.Call.Args)-1]); !ok || k != 0 {
+					okLocal = false
+				}
 			}
-		}
-	})
-	r.Check("R03c", "only function literals are spawned", sp.Pos(), okLit, "the body is translated without the fact thread.(*ast.FuncLit) succeeded")
-	r.Check("R03c", "the spawned body has no control effect and binds no parameters", sp.Pos(), okLocal && !touchesParams,
-		fmt.Sprintf("body usage is ExprValLocal=%v; literal's parameter list inspected=%v (parameters would have to be bound before the fork)", okLocal, touchesParams))
+			if v, ok := in.(ssa.Value); ok {
+				if o, fld, okf := fieldOf(v); okf && o.Obj().Name() == "FuncLit" && fld == "Type" || okf && o.Obj().Name() == "FuncType" && fld == "Params" {
+					touchesParams = true
+				}
+			}
+		})
+	}
+	r.Check("R03c", "the spawned body has no control effect and binds no parameters", gs.Pos(), nBody > 0 && okLocal && !touchesParams,
+		fmt.Sprintf("body translations=%d, usage is ExprValLocal=%v; literal's parameter list inspected=%v (parameters would have to be bound before the fork)", nBody, okLocal, touchesParams))
+	r.Check("R03c", "the go statement's own function expression is what is spawned", gs.Pos(), nBody > 0, "no translation of the literal's body found in the go-statement translation")
 }
 
 // quotedLits: the string literals occurring in a key.
